@@ -164,3 +164,36 @@ func VxH_C02_nested_padding() {
 		vx.Reach("split")
 	}
 }
+
+// a float taller than the page, with breakable content: what does not fit on the first page
+// continues on the next one, whether or not in-flow content follows.
+func VxH_C02_broken_float() {
+	follow := vx.Choose("in-flow-content-after", 2) == 1
+	n := 2 + vx.Choose("blocks-in-float", 2)
+	css := "@page{size:300px 100px;margin:0} html,body{margin:0} head{display:none} x-f{display:block;float:left;width:40px} " +
+		"x-a,x-b,x-c,x-z{display:block;height:60px;width:40px} x-y{display:block;clear:both} "
+	inner := []string{"<x-a></x-a>", "<x-b></x-b>", "<x-c></x-c>"}
+	body := "<x-f>"
+	for i := 0; i < n; i++ {
+		body += inner[i]
+	}
+	body += "</x-f>"
+	if follow {
+		body += "<x-y><x-z></x-z><x-z></x-z></x-y>" // two pages of in-flow content
+	}
+	if !follow || n > 2 {
+		// the float needs more pages than the in-flow content
+		vx.Reach("region:float-outlasts-the-in-flow-content")
+	}
+	src := "<html><head><style>" + css + "</style></head><body>" + body + "</body></html>"
+	doc, err := tree.NewHTML(utils.InputString(src), "", nil, "")
+	if err != nil {
+		panic(err)
+	}
+	pages := Layout(doc, nil, false, nil)
+	vx.Reach("laid-out")
+	for _, tag := range []string{"x-a", "x-b", "x-c"}[:n] {
+		k, _, _ := vxOccurrences(pages, tag)
+		vx.Assert("float-content-laid-out-exactly-once:"+tag, k == 1)
+	}
+}
